@@ -22,6 +22,7 @@ import (
 // Outcome of running one program on the implementation.
 type Outcome struct {
 	Stage   string // "parse", "compile", "run", "ok", "gopanic"
+	Err     error  // the error returned by Run (Stage "run")
 	ErrText string
 	Class   string // error class for Stage run: text before the first ':' when it is a known class, else "user"
 	UserMsg string
@@ -297,6 +298,39 @@ func (e *Env) RunCode(code *compiler.Code, names []string, timeout time.Duration
 				o.Globals[n] = safeInspect(v)
 			}
 		}
+	}
+	return o
+}
+
+// RunCodeCtx runs compiled code on a fresh VM under the caller's context (no guard timer).
+func (e *Env) RunCodeCtx(ctx context.Context, code *compiler.Code) (o Outcome) {
+	defer func() {
+		if r := recover(); r != nil {
+			o = Outcome{Stage: "gopanic", ErrText: fmt.Sprint(r)}
+		}
+		e.mu.Lock()
+		o.Log = append([]string(nil), e.Log...)
+		e.mu.Unlock()
+	}()
+	machine := vm.New(code, vm.WithGlobals(e.Globals), vm.WithOS(e.OS), vm.WithConcurrency())
+	o.VM = machine
+	o.Code = code
+	if e.OnVM != nil {
+		e.OnVM(machine)
+	}
+	if err := machine.Run(ctx); err != nil {
+		o.Stage = "run"
+		o.Err = err
+		o.ErrText = err.Error()
+		o.Class, o.UserMsg = Classify(o.ErrText)
+		return o
+	}
+	o.Stage = "ok"
+	if v, ok := machine.TOS(); ok && v != nil {
+		o.Val = safeInspect(v)
+		o.Type = string(v.Type())
+	} else {
+		o.Val, o.Type = "nil", "nil"
 	}
 	return o
 }
